@@ -100,7 +100,8 @@ def make_cases(tier, seed, files):
         both({'o': 'inv', 'unique': variant != 'fromfile'})
         both({'o': 'ser'})
         src_after = None
-        if fate == 'keep':
+        if fate == 'keep' and how in ('cctor', 'cassign'):
+            # only a COPY must leave its source as it was; a move may take the source's content
             ops.append({'o': 'tables', 'b': 0})
             src_after = len(ops) - 1
         cases.append(({'id': 'v%05d' % i, 'ops': ops}, pairs, (src_tables_before, src_after), (variant, how, fate)))
